@@ -199,6 +199,64 @@ func runC09(c *Ctx) {
 	}
 
 	// ---------------------------------------------------------------------------------------
+	c.R.Rule("method-gate", "every HTTP transport other than GET (none of which restricts the operation kind) accepts a request in Supports only on the r.Method == \"POST\" edge, and GET only on r.Method == \"GET\": with first-match transport selection no GET request can reach a transport that executes mutations", 7)
+	for _, t := range httpTransports {
+		sup := c.fn(pkgTransport, t+".Supports")
+		if sup == nil {
+			continue
+		}
+		want := "POST"
+		if t == "GET" {
+			want = "GET"
+		}
+		bad := ""
+		n := 0
+		for _, r := range an.Returns(sup) {
+			for _, ve := range returnValueEdges(r, 0) {
+				if cv, ok := ve.val.(*ssa.Const); ok && cv.Value != nil && cv.Value.ExactString() == "false" {
+					continue
+				}
+				n++
+				gated := false
+				gs := an.BlockGuards(ve.from)
+				if ve.edgeIf != nil {
+					gs = append(gs, *ve.edgeIf)
+				}
+				for _, g := range gs {
+					f := an.FactOf(g)
+					if f.Op != token.EQL {
+						continue
+					}
+					for _, pr := range [][2]ssa.Value{{f.X, f.Y}, {f.Y, f.X}} {
+						if m, ok := an.ConstString(pr[1]); ok && m == want {
+							if fa, ok := loadAddr(pr[0]).(*ssa.FieldAddr); ok && fieldNameOf(fa) == "Method" {
+								gated = true
+							}
+						}
+					}
+				}
+				// `return r.Method == "POST"` as the value itself
+				if bo, ok := ve.val.(*ssa.BinOp); ok && bo.Op == token.EQL {
+					for _, pr := range [][2]ssa.Value{{bo.X, bo.Y}, {bo.Y, bo.X}} {
+						if m, ok := an.ConstString(pr[1]); ok && m == want {
+							if fa, ok := loadAddr(pr[0]).(*ssa.FieldAddr); ok && fieldNameOf(fa) == "Method" {
+								gated = true
+							}
+						}
+					}
+				}
+				if !gated {
+					bad = "Supports can return true at " + c.ipos(r) + " without having tested r.Method == \"" + want + "\""
+				}
+			}
+		}
+		if n == 0 {
+			bad = "Supports never returns true"
+		}
+		c.R.Check(bad == "", t+".Supports/method", c.pos(sup.Pos()), "accepts only "+want+" requests", bad+": a GET request with a matching Content-Type is routed to a transport that executes any operation kind")
+	}
+
+	// ---------------------------------------------------------------------------------------
 	c.R.Rule("status-vs-dispatch", "in every HTTP transport: a WriteHeader with a status that is not a 2xx constant never shares a path with DispatchOperation; no WriteHeader is reachable from a body write", 7)
 	for _, do := range dos {
 		uses := c.rwUses(do)
@@ -612,4 +670,36 @@ func writerLacksCapability(in ssa.Instruction, w ssa.Value) bool {
 		}
 	}
 	return false
+}
+
+type valEdge struct {
+	val    ssa.Value
+	from   *ssa.BasicBlock // block the value flows from (guards of this block hold)
+	edgeIf *an.Guard       // the branch taken out of `from`, if it ends in an If
+}
+
+// returnValueEdges expands the idx-th result of r through phi nodes into (value, predecessor block) pairs.
+func returnValueEdges(r *ssa.Return, idx int) []valEdge {
+	var out []valEdge
+	seen := map[ssa.Value]bool{}
+	var walk func(v ssa.Value, from *ssa.BasicBlock, eg *an.Guard)
+	walk = func(v ssa.Value, from *ssa.BasicBlock, eg *an.Guard) {
+		if phi, ok := v.(*ssa.Phi); ok && !seen[v] {
+			seen[v] = true
+			for i, e := range phi.Edges {
+				pred := phi.Block().Preds[i]
+				var g *an.Guard
+				if len(pred.Succs) == 2 && pred.Succs[0] != pred.Succs[1] {
+					if iff, ok := pred.Instrs[len(pred.Instrs)-1].(*ssa.If); ok {
+						g = &an.Guard{Cond: iff.Cond, Branch: pred.Succs[0] == phi.Block(), If: iff}
+					}
+				}
+				walk(e, pred, g)
+			}
+			return
+		}
+		out = append(out, valEdge{v, from, eg})
+	}
+	walk(r.Results[idx], r.Block(), nil)
+	return out
 }
